@@ -22,6 +22,7 @@ macro_rules! dispatch {
             "C03" => $f(&props::iter::IterProp $(, $arg)*),
             "C04" => $f(&props::opt::OptProp $(, $arg)*),
             "C05" => $f(&props::opt::AssumpProp $(, $arg)*),
+            "C06" => $f(&props::proof::ProofProp $(, $arg)*),
             "C07" => $f(&props::iter::MultiProp { id: "C07" } $(, $arg)*),
             "C08" => $f(&props::iter::MultiProp { id: "C08" } $(, $arg)*),
             "C09" => $f(&props::iter::MultiProp { id: "C09" } $(, $arg)*),
@@ -34,6 +35,7 @@ macro_rules! dispatch {
             "C17" => $f(&props::expl::ExplProp $(, $arg)*),
             "C18" => $f(&props::branch::BranchProp $(, $arg)*),
             "C19" => $f(&props::drcp::DrcpProp $(, $arg)*),
+            "C20" => $f(&props::repro::ReproProp $(, $arg)*),
             other => {
                 eprintln!("unknown property {other}");
                 std::process::exit(2)
